@@ -35,7 +35,7 @@ func init() {
 		Run: ruleEmittersAddressStream,
 	})
 	register(&Rule{
-		Name: "request-mapping", Props: []string{"C01", "C20", "C13"}, Engine: "AST", Floor: 14,
+		Name: "request-mapping", Props: []string{"C01", "C20", "C13", "C10"}, Engine: "AST", Floor: 14,
 		Doc: "each decoded request field reaches the request the handler sees: :method, :path and :authority are stored through their header setters (and the path kept for validation), every regular field ends in a Set*/Add* call in each clause of the field switch, each pseudo-header clause sets the flag it tested; the header-list size is accumulated as name+value+32 per field and compared strictly with the limit; body and content-length limits reject only above the limit; a cut field is carried over whenever at least one byte of it has arrived; the handler-running marker is set before the handler goroutine starts; hasBody is 'stream or at least one byte'",
 		Run: ruleRequestMapping,
 	})
